@@ -367,8 +367,32 @@ def callables() -> list[Callable_]:
         for a, target in cal.aliases:
             if target not in cal.sig.parameters or a in cal.sig.parameters:
                 raise MachineryError(f"C08: alias table out of date for {cal.cid}: {a} -> {target}")
+    # variants "explicit None": a parameter whose documented default is None may be passed the literal None - Python binds None,
+    # i.e. what omitting the argument binds (the variant's literal for such a parameter IS None; see _explicit())
+    import copy
+    for cal in list(out):
+        idx = {i for i, p in enumerate(cal.params) if p.default is None and cal.observed(p.name)}
+        if cal.handled and idx:
+            v = copy.copy(cal)
+            v.nonelit = idx
+            v.lits = [Lit(None, src="None") if i in idx else lit for i, lit in enumerate(cal.lits)]
+            out.append(v)
     _cache = out
     return out
+
+
+def _explicit(cal: Callable_, shape: dict, toks: list) -> list:
+    """Variant "explicit None": the literal of a None-default parameter equals its default, so token() cannot tell the two apart
+    and answers "the literal".  An OMITTED parameter holds its default by definition of the shape: say so."""
+    idx = getattr(cal, "nonelit", None)
+    if not idx:
+        return toks
+    n = len(cal.params)
+    passed = set(range(min(shape["np"], n))) | {k - 1 for k in shape["kw"] if 1 <= k <= n}
+    for k in shape["kw"]:
+        if k > n:
+            passed.add(list(cal.sig.parameters).index(cal.aliases[k - n - 1][1]))
+    return [DEFAULT if (i in idx and i not in passed and t == i + 1) else t for i, t in enumerate(toks)]
 
 
 def sigs_json(cals: list[Callable_]) -> list[dict]:
@@ -458,12 +482,14 @@ def token(cal: Callable_, pidx: int, value, *, ir: bool) -> int:
     (compared in canonical form) or a python object out of inspect.BoundArguments."""
     same = (lambda x: canon(value) == (x.ir if isinstance(x, Lit) else canon(x))) if ir else \
            (lambda x: _eq_py(value, x.py if isinstance(x, Lit) else x))
-    for j, lit in enumerate(cal.lits):
-        if same(lit):
-            return j + 1
+    if same(cal.lits[pidx]):          # (its own literal, then its own default: in the "explicit None" variants several literals are None)
+        return pidx + 1
     p = cal.params[pidx]
     if p.default is not inspect.Parameter.empty and same(p.default):
         return DEFAULT
+    for j, lit in enumerate(cal.lits):
+        if same(lit):
+            return j + 1
     return OTHER
 
 
@@ -483,7 +509,7 @@ def reference(cal: Callable_, shape: dict) -> dict:
                 return {"ok": False, "reason": r, "tok": []}
         return {"ok": False, "reason": "other:" + msg[:60], "tok": []}
     ba.apply_defaults()
-    return {"ok": True, "reason": "", "tok": [token(cal, i, ba.arguments[p.name], ir=False) for i, p in enumerate(cal.params)]}
+    return {"ok": True, "reason": "", "tok": _explicit(cal, shape, [token(cal, i, ba.arguments[p.name], ir=False) for i, p in enumerate(cal.params)])}
 
 
 def _walk(nodes):
@@ -540,7 +566,7 @@ def transpile(cal: Callable_, shape: dict, ctxv: int = 0) -> dict:
         raw = {p: getattr(hit[0], f) for p, f in cal.fields.items()} if hit else None
     if raw is None:
         return {"st": "dropped", "obs": [UNOBSERVED] * n}
-    obs = [token(cal, i, raw[p.name], ir=True) if p.name in raw else UNOBSERVED for i, p in enumerate(cal.params)]
+    obs = _explicit(cal, shape, [token(cal, i, raw[p.name], ir=True) if p.name in raw else UNOBSERVED for i, p in enumerate(cal.params)])
     return {"st": "accepted", "obs": obs,
             "raw": {k: (v if isinstance(v, (int, float, str, bool, type(None))) else repr(v)) for k, v in raw.items()}}
 
